@@ -1587,6 +1587,117 @@ func (e *Env) multiStoreFieldTerm(u *ssa.UnOp) string {
 	return t
 }
 
+// soleFieldStore: the one store instruction in the module that assigns field idx of an object of pointer type ptrT; nil if
+// there is none or more than one.
+var soleStoreCache = map[string]*ssa.Store{}
+var soleStoreDone = map[string]bool{}
+
+func (p *Prog) soleFieldStore(ptrT types.Type, idx int) *ssa.Store {
+	key := ptrT.String() + "#" + fmt.Sprint(idx)
+	if soleStoreDone[key] {
+		return soleStoreCache[key]
+	}
+	soleStoreDone[key] = true
+	var st *ssa.Store
+	n := 0
+	for _, fn := range p.Funcs {
+		for _, b := range fn.Blocks {
+			for _, in := range b.Instrs {
+				s2, ok := in.(*ssa.Store)
+				if !ok {
+					continue
+				}
+				if f2, ok := s2.Addr.(*ssa.FieldAddr); ok && f2.Field == idx && types.Identical(f2.X.Type(), ptrT) {
+					n++
+					st = s2
+				}
+			}
+		}
+	}
+	if n != 1 {
+		st = nil
+	}
+	soleStoreCache[key] = st
+	return st
+}
+
+// stepField: obj is a per-call object built in env.Fn (the orchestrator) and handed by address to step functions that run
+// one after the other; the field read by u is assigned at exactly one place in the module — in a step S that the
+// orchestrator calls directly with obj, on every successful path of S — and that call of S comes before the point from
+// which the read is made (the read itself, or the orchestrator's call that leads to it). Then the value read is the value
+// S stored. Returns that value in the environment of S as called by the orchestrator.
+func (e *Env) stepField(obj *ssa.Alloc, env *Env, fa *ssa.FieldAddr, u *ssa.UnOp) (ssa.Value, *Env) {
+	if env == nil || env.Fn != obj.Parent() || env.depth >= maxDepth {
+		return nil, nil
+	}
+	// the only store into (T, field) in the module
+	st := e.P.soleFieldStore(obj.Type(), fa.Field)
+	if st == nil {
+		return nil, nil
+	}
+	step := st.Parent()
+	par, ok := st.Addr.(*ssa.FieldAddr).X.(*ssa.Parameter)
+	if !ok || step == env.Fn {
+		return nil, nil
+	}
+	pi := -1
+	for i, q := range step.Params {
+		if q == par {
+			pi = i
+		}
+	}
+	// stored on every successful path of the step
+	for _, r := range returnsOf(step) {
+		if lastIsError(step) && !isSuccessReturn(r) {
+			continue
+		}
+		if !(st.Block() == r.Block() || st.Block().Dominates(r.Block())) {
+			return nil, nil
+		}
+	}
+	// the orchestrator's one call of the step with the object
+	var cs *ssa.Call
+	for _, b := range env.Fn.Blocks {
+		for _, in := range b.Instrs {
+			c, ok := in.(*ssa.Call)
+			if !ok || c.Call.StaticCallee() != step || c.Call.IsInvoke() || pi < 0 || pi >= len(c.Call.Args) || c.Call.Args[pi] != ssa.Value(obj) {
+				continue
+			}
+			if cs != nil {
+				return nil, nil
+			}
+			cs = c
+		}
+	}
+	if cs == nil {
+		return nil, nil
+	}
+	// where the read is made from, seen from the orchestrator
+	var at ssa.Instruction = u
+	if e != env {
+		at = nil
+		for x := e; x != nil && x.Parent != nil; x = x.Parent {
+			if x.Parent == env {
+				if ci, ok := x.Call.(ssa.Instruction); ok {
+					at = ci
+				}
+				break
+			}
+		}
+	}
+	if at == nil || at.Parent() != env.Fn || at == ssa.Instruction(cs) {
+		return nil, nil
+	}
+	if at.Block() == cs.Block() {
+		if indexIn(cs) >= indexIn(at) {
+			return nil, nil
+		}
+	} else if !cs.Block().Dominates(at.Block()) {
+		return nil, nil
+	}
+	return st.Val, env.Sub(cs, step)
+}
+
 func (e *Env) ctorField(u *ssa.UnOp) (ssa.Value, *Env) {
 	if u.Op != token.MUL {
 		return nil, nil
@@ -1596,6 +1707,15 @@ func (e *Env) ctorField(u *ssa.UnOp) (ssa.Value, *Env) {
 		return nil, nil
 	}
 	base, env := fa.X, e
+	// a field of a per-call object (handed in by address) that is assigned at one place in the module, read in the assigning
+	// function itself after the assignment
+	if _, isPar := base.(*ssa.Parameter); isPar {
+		if st := e.P.soleFieldStore(fa.X.Type(), fa.Field); st != nil && st.Parent() == u.Parent() && st.Addr.(*ssa.FieldAddr).X == fa.X {
+			if (st.Block() == u.Block() && indexIn(st) < indexIn(u)) || (st.Block() != u.Block() && st.Block().Dominates(u.Block())) {
+				return st.Val, e
+			}
+		}
+	}
 	for d := 0; d < 6; d++ {
 		par, ok := base.(*ssa.Parameter)
 		if !ok {
@@ -1618,6 +1738,12 @@ func (e *Env) ctorField(u *ssa.UnOp) (ssa.Value, *Env) {
 	case *ssa.Alloc:
 		// a parameter object built as a local literal by a caller and handed down by address (`obj := T{…}; obj.run(…)`): the
 		// value the caller stored into the field, provided nothing but that caller's function ever assigns this field
+		if base == fa.X && x.Referrers() != nil && forwarded(u) == nil {
+			// the function that built the per-call object reads a field one of its steps has filled in
+			if w, we := e.stepField(x, env, fa, u); w != nil {
+				return w, we
+			}
+		}
 		if base != fa.X && x.Referrers() != nil {
 			var stored ssa.Value
 			n := 0
@@ -1635,6 +1761,11 @@ func (e *Env) ctorField(u *ssa.UnOp) (ssa.Value, *Env) {
 			}
 			if n == 1 && e.P.fieldAssignedOnlyInFuncs(x.Type(), fa.Field) {
 				return stored, env
+			}
+			if n == 0 {
+				if w, we := e.stepField(x, env, fa, u); w != nil {
+					return w, we
+				}
 			}
 			if n == 0 && e.P.fieldAssignedOnlyInFuncs(x.Type(), fa.Field) {
 				// not mentioned in the literal: the zero value
@@ -4141,6 +4272,25 @@ func (sub *Env) rewriteResults(call *ssa.Call, fs []Fact) []Fact {
 			// the caller sees the number as that expression, so what the callee established about it still says something
 			for i := range r.Results {
 				if rv := retval(r, i); isInteger(rv.Type()) && strings.Contains(sub.LE(rv).String(), internal) {
+					freshResult = true
+				}
+			}
+		}
+	}
+	// … or fills a field of the per-call object it was handed (a step of a split execution): a later step reads the field as
+	// that expression (stepField), so what this step established about it still says something
+	if !freshResult {
+		for _, b := range sub.Fn.Blocks {
+			for _, in := range b.Instrs {
+				st, ok := in.(*ssa.Store)
+				if !ok || !isInteger(st.Val.Type()) {
+					continue
+				}
+				fa, ok := st.Addr.(*ssa.FieldAddr)
+				if !ok {
+					continue
+				}
+				if _, isPar := fa.X.(*ssa.Parameter); isPar && sub.P.soleFieldStore(fa.X.Type(), fa.Field) == st && strings.Contains(sub.LE(st.Val).String(), internal) {
 					freshResult = true
 				}
 			}
